@@ -253,6 +253,9 @@ func ruleR9_6(w *World, r *Report) {
 			case fmt.Sprintf("=%d", unsat):
 				cls = "false"
 			}
+			if c := w.statusClass(st.facts[st.vkey(statusCall)]); c != "" {
+				cls = c
+			}
 			got[cls][act{st.facts["removes"] == "yes", st.facts["lowers"] == "yes"}] = true
 			if st.facts["lowers"] == "other" {
 				got[cls][act{st.facts["removes"] == "yes", false}] = true
